@@ -142,8 +142,17 @@ class SSHChannel(log.Logger):
         if self.extBuf:
             b = self.extBuf
             self.extBuf = []
-            for type, data in b:
-                self.writeExtended(type, data)
+            # The entries detached from extBuf are invisible to
+            # loseConnection(): hold a requested close back until all of
+            # them have been written (or buffered again).
+            closing, self.closing = self.closing, 0
+            try:
+                for type, data in b:
+                    self.writeExtended(type, data)
+            finally:
+                self.closing = closing
+            if self.closing:
+                self.loseConnection()  # try again
 
     def requestReceived(self, requestType, data):
         """
